@@ -105,6 +105,16 @@ Verdict check_ode(const J& r) {
   L tM = tolM(E, tolp, circ);
   v.le(fabsl((L)M12 - R.M12), tM, "M12 vs Jacobi equation");
   v.le(fabsl((L)M21 - R.M21), tM, "M21 vs Jacobi equation");
+  if (iface == 2) {
+    // the overloads that return the geodesic scales (or the reduced length) *without* the other: the library computes
+    // them on a different path (S-C03-m6 skipped the J12 integral unless m12 was requested as well)
+    double s_, z1, z2, M12o = 0, M21o = 0, m12o = 0;
+    if (solver == 1) { GeodesicExact g(a, f); g.Inverse(lat1, lon1, o.lat2, o.lon2, s_, z1, z2, M12o, M21o); g.Inverse(lat1, lon1, o.lat2, o.lon2, s_, z1, z2, m12o); }
+    else { Geodesic g(a, f, solver == 2); g.Inverse(lat1, lon1, o.lat2, o.lon2, s_, z1, z2, M12o, M21o); g.Inverse(lat1, lon1, o.lat2, o.lon2, s_, z1, z2, m12o); }
+    v.le(fabsl((L)M12o - R.M12), tM, "M12 from Inverse(..., M12, M21) vs Jacobi equation");
+    v.le(fabsl((L)M21o - R.M21), tM, "M21 from Inverse(..., M12, M21) vs Jacobi equation");
+    v.le(fabsl((L)m12o - R.m12), 2 * tolp + R.errm, "m12 from Inverse(..., m12) vs Jacobi equation [m]");
+  }
   // S12: the library reduces alpha2 - alpha1 to (-180,180], so for long segments S12 is defined modulo 2 pi c2
   L dS = (L)S12 - R.S12;
   bool shortseg = fabsl((L)a12) <= 180;
